@@ -450,6 +450,7 @@ pub fn run_case(case: &Case) -> CaseResult {
 				fail_decode: vec![],
 				fail_seek: vec![],
 				fail_sticky: false,
+				slow: 0,
 			},
 			None,
 			&settings,
